@@ -180,7 +180,7 @@ def gen_case(rng, tier, ctx, i):
         from . import c04
         ctx.count("count:bounded-sweep-formulas")
         return {"recipe": recipes.strip(c04.next_sweep(i, ctx.seed)), "seed": rng.getrandbits(32)}
-    o = common.varied_opts(rng, tier)
+    o = common.varied_opts(rng, tier, p_window=0.08)
     if rng.random() < 0.05:
         return special_case(rng, ctx)
     if rng.random() < 0.06:
